@@ -150,4 +150,16 @@ CLAIMED = {
                 "failed obligation and needs re-triage.",
         "technique": "canonical-form formula comparison + index-expression agreement + argument-slot rule over resolved call sites",
     },
+    "C09": {
+        "text": "Writer/reader table agreement read off the representer sources: (E1) every class offering to_file/from_file answers, as classmethods, an object "
+                "type name for which a reader and a writer are registered at module level, and the per-family type tables are mutually inverse; (E2) for each of "
+                "the 7 representer pairs (plus the shared error-source helpers) every key the writer writes is consumed by the reader and every required key is "
+                "written - 103 key obligations; (E3) no two keys written from the same expression; (E4) values stored flag-dependently are written through the "
+                "accessor selected by the serialised flag; (E5) per-source state used by the total (object, axis, enabled) is written, restored and applied, both "
+                "'load results' sites apply the stored parameter values; (E6) truncate(0) dominates every write on the append-mode handle and every writer uses "
+                "that write; (E7) the three shorthand expanders accept the same scalar types; (E8) reader-side installs are followed by the fit's own invalidation.",
+        "note": "Value-level round-trip equality, second-cycle idempotence and refit equality are dynamic and not decided. Two genuine defects are recorded as "
+                "known findings (CostFunction / FunctionFormatter offer to_file without any representer).",
+        "technique": "table extraction from ast (registrations, type tables, written/consumed key sets) + set agreement; CFG dominance for truncation",
+    },
 }
